@@ -13,40 +13,33 @@
     the configured target name with client-decoded values, [selects Q] keeps
     the leaves below the subscription path.
 
-    Full statement of relay_faithful (not proved in this form):
-
-      forall cfg ss q sched name s,
-        validate cfg = true -> In name (keys (cf_targets cfg)) -> assoc name ss = Some s ->
-        g_target (cq_prefix q) = name ->
-        ts_increasing None s = true ->
-        prefix_free_from [] s = true ->        (* no stored path is a proper prefix of another AT ANY TIME *)
-        decodable s = true -> ... (no `*`/meta, query glob-free and above the leaves,
-                                   no origin in a path, no -0) ->
-        exists l, pipeline cfg ss q sched = VLeaves l /\
-                  Permutation l (selects (sub_query q) (stamp_paths name (replay s))).
-
-    [C01_relay_faithful_partial] proves exactly this conclusion, for every
-    configuration, every other target's stream and every schedule, under the
-    stronger hypothesis that the stream conforms to a *schema* [Keys] no member
-    of which is a proper prefix of another (prefix-freeness over the whole
-    history instead of at each instant) and a value set [Vals] of decodable
-    values on which value.Equal implies equal decoding. *)
+    [stream_ok name Vals Q s] (PipelineProofs.conforms) says of the subscribed
+    target's stream: notification timestamps strictly increase
+    ([ts_increasing]); the replay is prefix-free at every instant
+    ([prefix_free_from [] s = true]: no update meets a stored path that is a
+    proper prefix or extension of its own); every update path is glob-free and
+    the subscription path does not run below it; values are drawn from [Vals];
+    the stamped origin is not [meta]; no origin is carried in a path
+    ([no_porigin], open finding 7.21).  [Vals] is any set of values the client
+    can decode and on which value.Equal implies equal decoding (this excludes a
+    leaf alternating between +0 and -0, open finding). *)
 From Gnmi Require Import Base.Prelude CTree.CTreeModel Pipeline.PipelineModel Pipeline.PipelineCheck
   Pipeline.PipelineProofs.
 
-(** relay_faithful, all configurations / other targets / schedules; schema-prefix-free streams *)
-Theorem C01_relay_faithful_partial :
-  forall (name : string) (Keys : path -> Prop) (Vals : tv -> Prop) (Q Qr : path)
+(** relay_faithful: for every configuration (any number of targets), every
+    stream of every other target, EVERY schedule, every subscription to a
+    subtree of a configured target, and every conforming stream of that target:
+    at quiescence the client holds exactly the target's final state under the
+    configured name -- no missing, extra or stale leaf *)
+Theorem C01_relay_faithful :
+  forall (name : string) (Vals : tv -> Prop) (Q Qr : path)
          (cq : cquery) (s : list item) (cfg : config) (ss : streams) (sched : list action),
-    (forall a b : path, Keys a -> Keys b -> strict_prefix a b = false) ->
-    (forall a : path, Keys a -> glob_free a = true) ->
     (forall v : tv, Vals v -> to_scalar v <> None) ->
     (forall a b : tv, Vals a -> Vals b -> tv_equal a b = true -> to_scalar a = to_scalar b) ->
     Q = name :: Qr -> glob_free Q = true ->
-    (forall k : path, Keys k -> strict_prefix (name :: k) Q = false) ->
     sub_query cq = Q -> g_target (cq_prefix cq) = name ->
     complete_path (cq_prefix cq) (cq_path cq) = Some Qr ->
-    conforms name Keys Vals s ->
+    stream_ok name Vals Q s ->
     validate cfg = true -> NoDup (keys (cf_targets cfg)) ->
     (forall n, In n (keys (cf_targets cfg)) -> is_glob n = false) ->
     In name (keys (cf_targets cfg)) ->
@@ -54,8 +47,8 @@ Theorem C01_relay_faithful_partial :
     (forall n' l, In (n', l) ss -> Forall (item_nometa n') l) ->
     exists l, pipeline cfg ss cq sched = VLeaves l /\
               Permutation l (selects Q (stamp_paths name (replay s))).
-Proof. exact relay_multi. Qed.
-Print Assumptions C01_relay_faithful_partial.
+Proof. exact relay_faithful_all. Qed.
+Print Assumptions C01_relay_faithful.
 
 (** its hypotheses are satisfiable: two targets, keyed path, origin in a prefix,
     decimal value, a suppressed update, a subtree delete, an interleaved
@@ -132,3 +125,23 @@ Theorem C01_relay_negative_zero_refuted :
             ~ Permutation l (selects ["dev1"] (stamp_paths "dev1" (replay Refuted.s_zero))).
 Proof. exact Refuted.negative_zero_refuted. Qed.
 Print Assumptions C01_relay_negative_zero_refuted.
+
+(** regression witness of the repaired defect C01_3: the delete notification of
+    a leaf with mixed path encodings named only the prefix subtree before
+    6b65ac8 ([to_delete_gen true]); the model of the current code names the leaf *)
+Theorem C01_mixed_encoding_regression :
+  full_path Refuted.r_mixed = ["dev1"; "openconfig"; "a"; "b"] /\
+  del_full (to_delete_gen true Refuted.r_mixed 300) = ["dev1"; "openconfig"; "a"] /\
+  del_full (to_delete Refuted.r_mixed 300) = full_path Refuted.r_mixed.
+Proof. exact Refuted.mixed_encoding_regression. Qed.
+Print Assumptions C01_mixed_encoding_regression.
+
+(** outside prefix-freeness: a notification that deletes a leaf and writes below
+    it is applied updates-first by the cache (gNMI: deletes first) and the
+    subscriber ends with nothing; [prefix_free_from] rejects the stream *)
+Theorem C01_relay_leaf_to_subtree_refuted :
+  prefix_free_from [] Refuted.s_replace = false /\
+  exists l, pipeline Refuted.cfg1 [("dev1", Refuted.s_replace)] RelayExample.q [ASubscribe] = VLeaves l /\
+            ~ Permutation l (selects ["dev1"] (stamp_paths "dev1" (replay Refuted.s_replace))).
+Proof. exact Refuted.leaf_to_subtree_refuted. Qed.
+Print Assumptions C01_relay_leaf_to_subtree_refuted.
